@@ -147,9 +147,11 @@ func H_C09_acceptedEventsAreListed() {
 		ev = Event_OnCoopCloseReceived
 	}
 	_, listed := sc.sm.States[st].Events[ev]
-	_, invalidListed := sc.sm.States[st].Events[Event_OnInvalid_Message]
+	// (whether or not the message content is well-formed, and whether or not the state lists
+	// Event_OnInvalid_Message: a message type the state does not accept is rejected before its content is
+	// looked at)
 	sc.vSendMsg(kind, sc.sm.Data.PeerNodeId)
-	if !listed && !invalidListed {
+	if !listed {
 		zzverif.Reach("c09.unlisted_event")
 		zzverif.Assert(sc.sm.Current == st, "C09.unlisted_event_keeps_state")
 		zzverif.Assert(vFinger(sc.sm) == fp, "C09.unlisted_event_changes_no_field")
